@@ -13,6 +13,8 @@
 //!           the 8 bytes of z, little endian; concatenated and cut to `size`.
 //! `filesraw <package bytes>`
 //!     parses a (hand-assembled, foreign) package and iterates `Package::files()`.
+//! `filesz07 <package bytes> <decoded prefix> <eof|fail|none> [feat=nobz]`
+//!     the same for a foreign package with a COMPRESSED (intact / truncated / corrupted / multi-member) payload.
 //!
 //! observation: `ok n=<yielded> ar=<fnv of the raw payload | -> {<path>:<size>:<len>:<fnv>:<octmode>:<dg>}`
 //!     (`path` = hex, or `L<len>.<fnv>` above 40 bytes; `size` = recorded size, `len` = |content|;
@@ -310,6 +312,11 @@ pub fn eval(op: &str, a: &[&str]) -> Option<String> {
     match op {
         "files" => files_op(a),
         "filesraw" => Some(filesraw_op(&arg_bytes(a[0]))),
+        // `filesz07 <package> <decoded|-> <eof|fail|none> [feat=nobz]`: a (foreign) package whose payload is COMPRESSED, possibly
+        // damaged or truncated; the 2nd / 3rd arguments are for the Lean driver only (it has no decompressors): the bytes a
+        // streaming decoder of the named codec hands out before it stops, and how it stops (`decode_prefix`, codec crates
+        // called directly); `none` = the codec named in the header is not one the harness knows
+        "filesz07" => Some(filesraw_op(&arg_bytes(a[0]))),
         _ => None,
     }
 }
@@ -396,9 +403,53 @@ impl FFile {
 /// lead ++ empty signature header ++ main header carrying the file tags `get_file_entries` needs ++ archive.
 /// Generator contract (the driver relies on it for `dg`): FILEDIGESTS[i] is the SHA-256 of the content
 /// the package means for file i (empty for a %ghost file, which has no content in the archive).
+/// compress with the codec crates directly (not through rpm-rs)
+pub fn compress07(kind: &str, data: &[u8]) -> Vec<u8> {
+    use std::io::Write;
+    match kind {
+        "gzip" => { let mut e = flate2::write::GzEncoder::new(Vec::new(), flate2::Compression::new(6)); e.write_all(data).unwrap(); e.finish().unwrap() }
+        "zstd" => zstd::stream::encode_all(data, 3).unwrap(),
+        "xz" => { let mut e = liblzma::write::XzEncoder::new(Vec::new(), 6); e.write_all(data).unwrap(); e.finish().unwrap() }
+        "bzip2" => { let mut e = bzip2::write::BzEncoder::new(Vec::new(), bzip2::Compression::new(9)); e.write_all(data).unwrap(); e.finish().unwrap() }
+        _ => data.to_vec(),
+    }
+}
+
+/// what a STREAMING decoder of `kind` hands out before it stops, and whether it stops with an error (the same decoder
+/// types `decompress_stream` boxes, read with a small buffer); `None` = no such codec here
+pub fn decode_prefix(kind: &str, data: &[u8]) -> Option<(Vec<u8>, bool)> {
+    use std::io::Read;
+    let mut r: Box<dyn Read> = match kind {
+        "none" => return Some((data.to_vec(), false)),
+        "gzip" => Box::new(flate2::bufread::GzDecoder::new(std::io::Cursor::new(data.to_vec()))),
+        "zstd" => match zstd::stream::Decoder::new(std::io::Cursor::new(data.to_vec())) { Ok(d) => Box::new(d), Err(_) => return Some((vec![], true)) },
+        "xz" => Box::new(liblzma::bufread::XzDecoder::new(std::io::Cursor::new(data.to_vec()))),
+        "bzip2" => Box::new(bzip2::bufread::BzDecoder::new(std::io::Cursor::new(data.to_vec()))),
+        _ => return None,
+    };
+    let mut out = Vec::new();
+    let mut buf = [0u8; 97];
+    loop {
+        match r.read(&mut buf) {
+            Ok(0) => return Some((out, false)),
+            Ok(n) => out.extend_from_slice(&buf[..n]),
+            Err(e) if e.kind() == std::io::ErrorKind::Interrupted => {}
+            Err(_) => return Some((out, true)),
+        }
+    }
+}
+
 fn foreign_pkg(files: &[FFile], long_sizes: bool, archive: &[u8]) -> Vec<u8> {
+    foreign_pkg_c(files, long_sizes, archive, None)
+}
+
+/// `compressor`: the RPMTAG_PAYLOADCOMPRESSOR text (None = tag absent)
+fn foreign_pkg_c(files: &[FFile], long_sizes: bool, archive: &[u8], compressor: Option<&str>) -> Vec<u8> {
     let mut h = GHeader::new();
     h.push(1000, 6, &TData::Str(b"foreign".to_vec()));
+    if let Some(c) = compressor {
+        h.push(1125, 6, &TData::Str(c.as_bytes().to_vec()));
+    }
     if !files.is_empty() {
         let mut dirs: Vec<Vec<u8>> = Vec::new();
         let mut dix = Vec::new();
@@ -447,6 +498,20 @@ impl Emit<'_> {
         let (si, sn) = self.ctx.shard;
         if self.k % sn == si {
             self.ctx.req(line);
+        }
+        self.k += 1;
+    }
+    /// a foreign package whose payload is what codec `kind` (named in the header as `tag`) is given to decode
+    fn rawz(&mut self, pkg: &[u8], kind: &str, payload: &[u8], extra: &str) {
+        let (si, sn) = self.ctx.shard;
+        if self.k % sn == si {
+            let _ = std::fs::create_dir_all("work/c07-blobs");
+            let arg = blob_arg("work/c07-blobs", &format!("z{}-{}-{}", self.ctx.seed, si, self.k), pkg);
+            let (dec, how) = match decode_prefix(kind, payload) {
+                Some((d, failed)) => (blob_arg("work/c07-blobs", &format!("zd{}-{}-{}", self.ctx.seed, si, self.k), &d), if failed { "fail" } else { "eof" }),
+                None => ("-".to_string(), "none"),
+            };
+            self.ctx.req(&format!("filesz07 {} {} {}{}", arg, dec, how, extra));
         }
         self.k += 1;
     }
@@ -519,6 +584,9 @@ fn corpus_requests() -> Vec<String> {
 }
 
 pub fn gen(ctx: &mut Ctx) {
+    if ctx.variant == "nobz" {
+        return gen_nobz(ctx);
+    }
     if ctx.shard.0 == 0 && SIZE_DISAGREE_CASES {
         for r in corpus_requests() { ctx.req(&r); }
     }
@@ -910,4 +978,85 @@ pub fn gen(ctx: &mut Ctx) {
             }
         }
     }
+
+    // E. foreign packages with a COMPRESSED payload: `decompress_stream` hands the iterator a lazy decoder, so a damaged or
+    //    truncated stream gives the items that lie before the damage and then an error (never all-or-nothing)
+    gen_compressed(&mut e, &mut rng, thorough, "");
+}
+
+fn gen_compressed(e: &mut Emit, rng: &mut Rng, thorough: bool, extra: &str) {
+    let rounds = if thorough { 12 } else { 2 };
+    let kinds: &[&str] = if extra.is_empty() { &["gzip", "zstd", "xz", "bzip2"] } else { &["bzip2", "gzip"] };
+    for round in 0..rounds {
+        let sizes = [[5usize, 300, 4096], [0, 70000, 7], [4095, 1, 2]][round % 3];
+        let files: Vec<FFile> = sizes.iter().enumerate().map(|(i, &sz)| FFile {
+            dir: if i == 1 { b"/usr/lib/".to_vec() } else { b"/".to_vec() },
+            base: format!("z{}", i).into_bytes(), mode: 0o100644,
+            data: content_of(if i == 1 { 'r' } else { 'p' }, rng.below(1 << 20), sz), ghost: false }).collect();
+        let mut ar = Vec::new();
+        for (i, f) in files.iter().enumerate() {
+            let mut name = f.cpio_name();
+            name.push(0);
+            ar.extend(cpio_entry(b"070701", &name, i as u32 + 1, f.mode as u32, 1, &f.data, 0));
+        }
+        let first_two = ar.len() - { let f = &files[2]; let mut n = f.cpio_name(); n.push(0); cpio_entry(b"070701", &n, 3, f.mode as u32, 1, &f.data, 0).len() };
+        ar.extend(cpio_trailer());
+        // a trailing %ghost keeps the `count` guard open for one more call after the last real entry
+        let mut hs = files.clone();
+        hs.push(FFile { dir: b"/".to_vec(), base: b"zz-ghost".to_vec(), mode: 0o100644, data: vec![], ghost: true });
+        for &kind in kinds {
+            let z = compress07(kind, &ar);
+            let mut payloads: Vec<Vec<u8>> = vec![z.clone()];
+            if extra.is_empty() {
+                // truncations: inside the codec's trailer / last block, in the middle, right after the stream header, nothing
+                for cut in [1usize, 4, 8, 12, z.len() / 4, z.len() / 2, z.len() - z.len() / 8, z.len().saturating_sub(14), z.len()] {
+                    let mut t = z.clone();
+                    t.truncate(z.len() - cut.min(z.len()));
+                    payloads.push(t);
+                }
+                for _ in 0..2 {
+                    let mut t = z.clone();
+                    let k = rng.below(z.len() as u64) as usize;
+                    t.truncate(k);
+                    payloads.push(t);
+                }
+                // one byte changed (checksum / block header / data), bytes appended after the end of the stream
+                for _ in 0..2 {
+                    let mut t = z.clone();
+                    let k = rng.below(z.len() as u64) as usize;
+                    t[k] ^= 1 << rng.below(8);
+                    payloads.push(t);
+                }
+                let mut t = z.clone();
+                t.extend_from_slice(b"trailing bytes after the end of the compressed stream");
+                payloads.push(t);
+                // two members / frames: the archive split after its second entry, each half compressed on its own
+                let mut t = compress07(kind, &ar[..first_two]);
+                t.extend(compress07(kind, &ar[first_two..]));
+                payloads.push(t);
+                // the codec named in the header is not the payload's: raw cpio, another codec's stream
+                payloads.push(ar.clone());
+                payloads.push(compress07(if kind == "gzip" { "zstd" } else { "gzip" }, &ar));
+            }
+            for pl in &payloads {
+                e.rawz(&foreign_pkg_c(&hs, false, pl, Some(kind)), kind, pl, extra);
+            }
+        }
+        if extra.is_empty() {
+            // old rpm packages carry a gzip payload and NO compressor tag (rpm reads that as gzip, this library as `None`);
+            // an unknown compressor name
+            let z = compress07("gzip", &ar);
+            e.rawz(&foreign_pkg_c(&hs, false, &z, None), "none", &z, "");
+            e.rawz(&foreign_pkg_c(&hs, false, &z, Some("lzma")), "lzma", &z, "");
+        }
+    }
+}
+
+/// the harness built with `--no-default-features` (rpm-rs with ITS default features: no bzip2): a bzip2 payload is
+/// `UnsupportedCompressorType` on the read side as well (`decompress_stream`'s feature-gated arms); gzip as the control
+pub fn gen_nobz(ctx: &mut Ctx) {
+    let mut rng = Rng::new(ctx.seed ^ 0xC07);
+    let thorough = ctx.thorough;
+    let mut e = Emit { ctx, k: 0 };
+    gen_compressed(&mut e, &mut rng, thorough, " feat=nobz");
 }
